@@ -9,6 +9,15 @@ CLAIMED = {
  "C01": ("Coq proof by reflection (derivative bisimulation of the parser model's control automaton with the RFC 3986 grammar, checked by vm_compute) + extracted-model/implementation correspondence over an automaton-derived conformance suite",
          "Theorems for all strings of any code points: the model parser accepts iff the text matches URI-reference of RFC 3986 Appendix A; a rejected text is reported at the first dead character (anywhere inside the same bracketed literal when the dead character lies in one). The model is tied to src/UriParse.c by a conformance suite generated from the model's 971-state control automaton (state cover x every atom / every ASCII character x completions), grammar-directed and mutated URIs, the repository's test strings, all six entry points, char and wchar_t, plain and ASan; the RFC oracle (extracted matcher and error-window function) is evaluated on the implementation's own verdicts.",
          TB, "5 C01"),
+ "C02": ("Coq proof (data invariant of the parser automaton by induction over the run: parse followed by unparse is the identity; well-formedness of every parsed object; equality with an RFC 3986 Appendix-B splitter; IPv4/IPv6 value lemmas) + correspondence against the splitter oracle",
+         "Theorems for every accepted text: writing the parsed components back with their delimiters gives the input (components are consecutive sub-ranges); each component consists of the characters of its grammar rule; absent vs empty components, path segments, absolute-path flag, host kind equal those of an independently written RFC splitter; IPv4 octets and IPv6 bytes equal the value of the text (RFC 4291 '::' expansion, embedded dotted quad), rendering/reading round trips. 'Tail is the last node' is not expressible over the model's list and is checked on the implementation only.",
+         TB, "5 C02"),
+ "C03": ("Coq proof (components are contiguous pieces of the input; ledger theorem: nothing remains allocated after a syntax or out-of-memory failure) + placement correspondence at the end of readable memory",
+         "Theorems: every text a parsed object reports is a contiguous piece of the input; after a failed parse the ledger holds exactly the blocks it held before, no bad release, for every fault plan. 'Never reads outside [first, afterLast) and never writes to the input' is runtime behaviour: the model consumes exactly the range by construction, and the check places each text at the end of a readable page / in the middle of buffers with varying trailing content, for all split points, under ASan, and compares with the model run on the range alone.",
+         TB + " Partial: out-of-range reads and writes to the input are observed (guard page, ASan, trailing-content variation), not proved.", "5 C03"),
+ "C04": ("Coq proof (recomposition of a parsed object equals the unparse of C02 with the engine's host rendering; IPv4 and IPv6 rendering lemmas) + correspondence over accepted texts",
+         "Theorems for every accepted text: to_text(parse s) is s with the host as the engine renders it; equal to s for hosts that are not addresses, and re-parsing gives the same object; for an IPv6 literal the text is pre[rendered bytes]post with the bytes of the literal; the IPv4/IPv6 rendering lemmas (C02ip4/C02ip6) give character-for-character identity for dotted quads and the canonical eight-group lower-case form denoting the same address. Tied to src/UriRecompose.c and src/UriParse.c by parse -> toString -> parse on generated accepted texts, borrowed and owned.",
+         TB, "5 C04"),
  "C05": ("Coq proof (induction over the copy sequence with an explicit write log) + correspondence over every capacity",
          "Theorems for every URI value and every capacity: chars-required = length of the text; capacity >= length+1 succeeds with length+1 reported; smaller capacities give the too-long code, charsWritten 0, an empty string iff capacity >= 1; every write lies inside [0, capacity). Tied to src/UriRecompose.c by running all capacities from -1 to length+2 on parsed and raw objects, guard zones and ASan exact-size buffers.",
          TB + " Partial in one respect: a real write past the buffer is runtime behaviour, observed by guard zones / ASan.", "5 C05"),
